@@ -39,6 +39,11 @@ pub struct AccountSeed {
 pub struct MemDb {
     pub accounts: BTreeMap<Address, AccountSeed>,
     pub code_by_hash: HashMap<B256, Bytecode>,
+    /// Answer a lookup of an unknown code hash with empty code (as revm's `EmptyDB` / `CacheDB`
+    /// do) instead of an error. In-order execution never asks for a hash the pre-state does not
+    /// hold, so the reference is unaffected; an engine that asks for code it should have found in
+    /// its own block-local versions is no longer rescued by the error-and-retry path.
+    pub lenient_code: bool,
 }
 
 impl MemDb {
@@ -50,7 +55,7 @@ impl MemDb {
                 code_by_hash.insert(bc.hash_slow(), bc);
             }
         }
-        Self { accounts, code_by_hash }
+        Self { accounts, code_by_hash, lenient_code: false }
     }
 
     pub fn info(&self, address: Address) -> Option<AccountInfo> {
@@ -73,10 +78,11 @@ impl DatabaseRef for MemDb {
         if code_hash == KECCAK_EMPTY {
             return Ok(Bytecode::default());
         }
-        self.code_by_hash
-            .get(&code_hash)
-            .cloned()
-            .ok_or_else(|| DbErr(format!("missing code {code_hash}")))
+        match self.code_by_hash.get(&code_hash) {
+            Some(code) => Ok(code.clone()),
+            None if self.lenient_code => Ok(Bytecode::default()),
+            None => Err(DbErr(format!("missing code {code_hash}"))),
+        }
     }
     fn storage_ref(&self, address: Address, index: U256) -> Result<U256, DbErr> {
         Ok(self
